@@ -554,6 +554,12 @@ func newSlim(keys []string, bytesValues [][]byte, opt *Opt) (*Slim, error) {
 			idxs[i] = bmtree.PathToIndex(bitmapSize, p)
 		}
 
+		// A step is stored in 16 bits, in unit of 4-bit.
+		if !*opt.InnerPrefix && (wordStart-o.fromKeyBit)>>2 > maxStep {
+			return nil, errors.Wrapf(ErrStepTooLong,
+				"keys[%d:%d] share %d bits without a branch", s, e, wordStart-o.fromKeyBit)
+		}
+
 		// Without the bits of label word at parent node
 		c.addInner(nid, idxs, bitmapSize, o.fromKeyBit, wordStart, keys[s])
 
